@@ -490,3 +490,48 @@ struct C08Names : Monitor {
 	}
 };
 Monitor *mk_c08_names(World *w) { return new C08Names(w); }
+
+// ================================================================== C09 (client half, direct): the autoprobe's verdicts
+// The real client probes fragment sizes by binary search and then requests max_ok - 2 with N.  Every probe reply that reaches
+// it is also decoded by the reference decoder; the size it settles on must be the largest probed size whose reply arrived
+// exactly (right length, right pattern) - anything else means the client extracted something different from what was sent.
+struct C09ProbeJudge : Monitor {
+	World *w;
+	std::map<int, int> verdict;      // probed F -> 1 exact reply seen first, 0 inexact reply seen first (no entry: no reply with that ack)
+	std::vector<int> order;
+	bool done = false;
+	C09ProbeJudge(World *w) : w(w) {}
+	void on_send(const Dgram &d, Sock *s) override
+	{
+		if (done || !s || w->clients.empty() || s->owner != w->clients[0].task || is_raw(d.data)) return;
+		DnsMsg m; UpQuery u;
+		if (!dns_parse_strict(d.data, m).empty() || m.qd.empty() || !decode_upquery(m.qd[0].name.dotted(), w->domain, u)) return;
+		if (u.cmd == 'r' && u.raw.size() >= 3) {
+			int F = ((std::max(0, b32val(u.raw[0])) & 1) << 10) | ((std::max(0, b32val(u.raw[1])) & 31) << 5) | (std::max(0, b32val(u.raw[2])) & 31);
+			if (order.empty() || order.back() != F) order.push_back(F);
+		} else if (u.cmd == 'n' && u.b32.size() >= 3 && !order.empty()) {
+			done = true;
+			int asked = (u.b32[1] << 8) | u.b32[2];
+			int best = 0;
+			for (auto &v : verdict) if (v.second == 1) best = std::max(best, v.first);
+			w->probes["c09.autoprobe_judged"]++;
+			if (best > 2 && asked != best - 2) {
+				char b[260]; snprintf(b, sizeof b, "the client settled on fragment size %d; the largest probed size whose reply reached it exactly (reference decoder) was %d, so %d was expected (%zu sizes probed)", asked, best, best - 2, order.size());
+				w->S.violate("C09", "probe.misjudged", b);
+			}
+		}
+	}
+	void on_deliver(const Dgram &d, Sock *s) override
+	{
+		if (done || !s || w->clients.empty() || s->owner != w->clients[0].task || d.src.port != 53 || is_raw(d.data)) return;
+		DnsMsg m; UpQuery u; Bytes pl;
+		if (!dns_parse_strict(d.data, m).empty() || m.qd.empty() || !decode_upquery(m.qd[0].name.dotted(), w->domain, u) || u.cmd != 'r') return;
+		if (order.empty() || !answer_payload(m, pl) || pl.size() < 2) return;
+		int acked = (pl[0] << 8) | pl[1];
+		if (acked != order.back() || verdict.count(acked)) return;        // late answer to an earlier probe, or already judged
+		bool ok = (int)pl.size() == acked && pl.size() >= 3 && pl[2] == 107;
+		for (size_t i = 4; ok && i < pl.size(); i++) if ((uint8_t)(pl[i] - pl[i - 1]) != 107) ok = false;
+		verdict[acked] = ok ? 1 : 0;
+	}
+};
+Monitor *mk_c09_probe_judge(World *w) { return new C09ProbeJudge(w); }
